@@ -38,6 +38,9 @@ func runProp(id, tier string, only *replayFilter) (code int) {
 		}
 	}()
 	fn(c)
+	if tier == "thorough" && only == nil {
+		selfTestInto(c)
+	}
 	return c.Finish()
 }
 
@@ -98,11 +101,6 @@ func main() {
 		for _, id := range rest {
 			if rc := runProp(id, tier, nil); rc > code {
 				code = rc
-			}
-			if tier == "thorough" {
-				if rc := selfTest([]string{id}); rc > code {
-					code = rc
-				}
 			}
 		}
 		os.Exit(code)
